@@ -324,11 +324,45 @@ def cancellation(ctx):
     ctx.ob("R15.4", "_run_stage returns `not <cancellation flag>`", ok, detail=[norm(r) for r in rets], where=f.fq, construct="return of _run_stage",
            message=f"{[norm(r) for r in rets]}", consequence="the caller cannot tell a cancelled thermalisation from a completed one")
     fr = repo.func(RUNNER, "Runner.run")
-    stage1 = [n for n in own_nodes(fr.node) if isinstance(n, ast.Assign) and isinstance(n.value, ast.Call) and norm(n.value.func) == "self._run_stage"]
-    sflag = norm(stage1[0].targets[0]) if len(stage1) == 1 else "?"
-    rr = [(norm(n.value), [("" if br == "true" else "not ") + rename_id(norm(g.test), sflag, "OK") for g, br in guards_of(fr.node, n, parent_map(fr.node)) if isinstance(g, ast.If)])
-          for n in own_nodes(fr.node) if isinstance(n, ast.Return)]
-    ok = sorted(rr) == sorted([("False", ["not OK"]), ("True", [])])
+    # by paths, not by shape: (i) after the recorded stage (save=True) has been entered every return is `True`;
+    # (ii) a return of anything else is guarded by `not <result of the thermalisation stage>` (other guards may be added)
+    from ..cfg import build_cfg
+    cfgr = build_cfg(fr.node)
+    pmr = parent_map(fr.node)
+
+    def stage_calls(save_value):
+        out = []
+        for n in cfgr.nodes:
+            if n.kind == "stmt" and n.ast is not None:
+                for c in ast.walk(n.ast):
+                    if isinstance(c, ast.Call) and norm(c.func) == "self._run_stage" and any(
+                            k.arg == "save" and isinstance(k.value, ast.Constant) and k.value.value is save_value for k in c.keywords):
+                        out.append(n)
+        return out
+    rec, therm = stage_calls(True), stage_calls(False)
+    if len(rec) != 1 or len(therm) != 1:
+        raise AnalysisError(f"Runner.run no longer calls self._run_stage once with save=False and once with save=True ({len(therm)}/{len(rec)})")
+    sflag = None
+    if isinstance(therm[0].ast, ast.Assign) and isinstance(therm[0].ast.targets[0], ast.Name):
+        sflag = therm[0].ast.targets[0].id
+    rets_n = [n for n in cfgr.nodes if n.ast is not None and isinstance(n.ast, ast.Return)]
+    rr = []
+    ok = sflag is not None
+    for rn in rets_n:
+        val = norm(rn.ast.value) if rn.ast.value is not None else "None"
+        after_rec = cfgr.path(rec[0].id, rn.id, skip_edges=("exc",)) is not None
+        gs = [("" if br == "true" else "not ") + norm(g.test) for g, br in guards_of(fr.node, rn.ast, pmr, normal=True) if isinstance(g, ast.If)]
+        rr.append((val, gs, "after the recorded stage" if after_rec else "before it"))
+        if after_rec:
+            ok = ok and val == "True"
+        elif val != "True":
+            flags = {sflag}
+            for _ in range(3):          # copies of the stage result (`success = <result>`)
+                for st_ in own_nodes(fr.node):
+                    if isinstance(st_, ast.Assign) and isinstance(st_.value, ast.Name) and st_.value.id in flags:
+                        flags |= {t.id for t in st_.targets if isinstance(t, ast.Name)}
+            ok = ok and sflag is not None and any(f"not {fl}" in gs for fl in flags)
+    ok = ok and any(v == "True" and w.startswith("after") for v, _, w in rr)
     ctx.ob("R15.4", "run() returns False only for a cancelled thermalisation, True once the recorded stage was entered", ok,
            detail=rr, where=fr.fq, construct="returns of run()", message=f"{rr}",
            consequence="a cancelled recorded stage returns no Solution although frames were written")
